@@ -406,3 +406,43 @@ def separator_rule(m, rid):
                 "a blank stays on a piece (`CASE (- 9 : - 1)`, which is what the printer emits, is then rejected)" if want and shown and
                 any(isinstance(x, str) and x != x.strip() for x in shown) else "the cut is not at the first ':'"), m.loc(f))
     return r
+
+
+def keyword_value_rule(m, rid):
+    r = RuleResult(rid, "KeywordValueBase.match, decided as a table: `[keyword =] value` is cut at the FIRST '=' only, the keyword is compared "
+                        "(case-blind where asked), an unknown keyword makes the whole text the value when the keyword is optional")
+    r.floor = 8
+    f = m.method(m.key("KeywordValueBase", UTILS), "match")
+    if f is None:
+        r.error("KeywordValueBase.match vanished")
+        return r
+    ev = PE.Evaluator({})
+    ev.g["KeywordValueBase"] = PE.Obj({"match": lambda *a, **k: ev.run_function(f.node, list(a), k)})
+    L, R = ctor("L"), ctor("R")
+
+    def show(got):
+        if got is None or isinstance(got, PE.PyRaise):
+            return got
+        return tuple(x.text if isinstance(x, Node) else x for x in got)
+    cases = [
+        (("UNIT", R, "UNIT=6"), {}, ("UNIT", "6")),
+        (("UNIT", R, "unit = 6"), {"upper_lhs": True}, ("UNIT", "6")),
+        (("UNIT", R, "unit = 6"), {}, None),
+        (("UNIT", R, "6"), {"require_lhs": False}, (None, "6")),
+        (("UNIT", R, "6"), {}, None),
+        (("FMT", R, "fmt='(a=b)'"), {"upper_lhs": True}, ("FMT", "'(a=b)'")),
+        (("FMT", R, "x == y"), {"require_lhs": False, "upper_lhs": True}, (None, "x == y")),
+        ((L, R, "a = b"), {}, ("a", "b")),
+        ((L, R, " a  =  b = c "), {}, ("a", "b = c")),
+        ((["A", "B"], R, "b = 1"), {"upper_lhs": True}, ("B", "1")),
+        (("UNIT", R, "unit ="), {"upper_lhs": True}, None),
+    ]
+    for args, kw, want in cases:
+        r.instances += 1
+        got = show(run(ev, f, list(args), kw))
+        ok = got == want
+        desc = "KeywordValueBase.match(%s, R, %r%s)" % (args[0] if isinstance(args[0], (str, list)) else "L", args[2], ", %s" % kw if kw else "")
+        r.ob(ok, "%s -> %r" % (desc, got))
+        if not ok:
+            r.fail("KeywordValueBase|%s|%s" % (args[2], sorted(kw)), "%s gives %r, expected %r" % (desc, got, want), m.loc(f))
+    return r
